@@ -587,6 +587,19 @@ class Interp:
         s.add(z3.Not(f))
         r = s.check()
         backend = "z3-5.1.0(api)"
+        if r == z3.unknown and "timeout" in s.reason_unknown() or r == z3.unknown and \
+                "cancel" in s.reason_unknown():
+            # wall-clock budgets must not flip a verdict when all cores are busy: one retry on a
+            # fresh solver with four times the budget before the query counts as open
+            s = z3.Solver()
+            s.set("timeout", self.ex.query_timeout_ms * 4)
+            for p in self.pc:
+                s.add(p)
+            for a in self.instantiated_axioms():
+                s.add(a)
+            s.add(z3.Not(f))
+            r = s.check()
+            backend = "z3-5.1.0(api, second attempt with 4x budget)"
         model = None
         status = "discharged" if r == z3.unsat else ("failed" if r == z3.sat else "undecided")
         if r == z3.unknown:
